@@ -538,7 +538,8 @@ pub fn gen_fault(rng: &mut Rng) -> Vec<u8> {
             }
             v[4 + 4] = c;
         } else {
-            let c = rng.range(2, 0x20) as u16;
+            // the command is a 16-bit field: values whose low byte alone would be a known command
+            let c = if rng.chance(1, 3) { *rng.pick(&[0x0100u16, 0x0101, 0x0200, 0x8000, 0x8001, 0xff00, 0xff01, 0x0102, 0xffff]) } else { rng.range(2, 0x20) as u16 };
             v[4 + 12..4 + 14].copy_from_slice(&c.to_le_bytes());
         }
     }
